@@ -218,7 +218,7 @@ def alloc_term(ex, st):
     return arr
 
 
-def havoc_allocation(ex, c, st_pre, post):
+def havoc_allocation(ex, c, st_pre, post, pre_spec=None):
     """the callee may allocate objects of the classes it declares: the allocation set grows, and the
     fields of those classes are arbitrary at objects that were not allocated before the call"""
     cx = ex.cx
@@ -227,6 +227,13 @@ def havoc_allocation(ex, c, st_pre, post):
     post = post.with_heap(("$", "alloc"), a1)
     facts = ["(forall ((r Int)) (=> (select %s r) (select %s r)))" % (a0, a1)]
     for cname in c.allocates:
+        when = getattr(c, "allocates_when", {}).get(cname)
+        if when is not None and pre_spec is not None:
+            try:
+                if ex.spec_bool(when, pre_spec) == "false":
+                    continue      # this call cannot allocate objects of that class (e.g. records=None)
+            except Unsupported:
+                pass
         classes = [cname] + [b.name for b in ex.repo.classes[cname].mro[1:] if hasattr(b, "name")]
         for cn in classes:
             sc = ex.specs.schemas.get(cn)
@@ -284,7 +291,7 @@ def apply_contract(ex, c, fi, args, kwargs, st, k, ctl, node):
     # 2. havoc what the callee may modify, allocate the result
     post = havoc_modifies(ex, c, pre.env, st, st)
     if c.allocates:
-        post = havoc_allocation(ex, c, st, post)
+        post = havoc_allocation(ex, c, st, post, pre)
     if c.ret == T.NONE:
         result = SV("none", T.NONE)
     elif c.ret == T.PYOBJ:
